@@ -357,7 +357,66 @@ def r95(facts, res):
         res.ok(R, 'regex-template', loc_of(b, bi), 'the rule regex is `%s`: anchored, user text grouped' % shown)
 
 
+def r96(facts, res):
+    """Syncing token ids reports, on either side, `None` exactly when nothing is missing.  Whether a "missing" result is None or
+    Some(set) must be decided by an emptiness test (is_empty(), len == 0) - of the set itself or of the collection it is built
+    from.  Deciding it by comparing two COUNTS (named rules that matched against entries of the map) equates "as many" with
+    "the same": two rules with one name and one name without a rule cancel out."""
+    R = 'R9.6'
+    bs = [b for b in facts.lib_bodies(['lrlex']) if b.name == 'set_rule_ids_spanned' and b.kind != 'closure']
+    if not bs:
+        return res.lost(R, 'no implementation of LexerDef::set_rule_ids_spanned found')
+    n = 0
+    for b in bs:
+        # the returned pair
+        comps = None
+        for bb, _i, st in b.stmts():
+            if st['k'] == 'assign' and st['lhs']['l'] == 0 and not st['lhs']['p'] and st['rv'].get('agg') == 'tuple':
+                comps = [op_local(o) for o in st['rv']['ops']]
+        if not comps or len(comps) != 2:
+            res.lost(R, '%s does not build its result pair here' % b.path)
+            continue
+        for ci, cl in enumerate(comps):
+            key = 'none-iff-empty:%s' % ('missing_from_lexer', 'missing_from_parser')[ci]
+            n += 1
+            r, _p, _v = b.root(cl, through=(), stop_named=False)
+            ds = b.defs().get(r, [])
+            nones = [d[0] for d in ds if d[1] == 'stmt' and isinstance(d[2].get('agg'), dict) and d[2]['agg'].get('vname') == 'None']
+            somes = [d[0] for d in ds if d[1] == 'stmt' and isinstance(d[2].get('agg'), dict) and d[2]['agg'].get('vname') == 'Some']
+            if not nones or not somes:
+                # e.g. built by a combinator (Some(set).filter(..)) - no None/Some decision in this body
+                res.ok(R, key, loc_of(b), 'no explicit None/Some decision in this function (result built elsewhere)')
+                res.note('R9.6: %s of %s is not built by an explicit None/Some choice; not decided' % (key, b.path))
+                continue
+            deciders = [sb for sb in b.control_deps_pd(nones[0]) if sb in b.control_deps_pd(somes[0])]
+            deciders = [sb for sb in deciders if all(b.dominates(o, sb) for o in deciders)] or deciders
+            if not deciders:
+                res.bad(R, key, loc_of(b, nones[0]), 'cannot find the test that chooses between None and Some')
+                continue
+            sb = deciders[0]
+            ol = op_local(b.term(sb)['on'])
+            verdict, how = None, ''
+            for d in b.defs().get(ol, []) if ol is not None else []:
+                if d[1] == 'call' and cname(d[2]) == 'is_empty':
+                    verdict, how = True, 'is_empty()'
+                elif d[1] == 'stmt' and d[2].get('bin') in ('Eq', 'Ne', 'Gt', 'Lt', 'Ge', 'Le'):
+                    ks = [op_const(d[2]['a']), op_const(d[2]['b'])]
+                    if any(k is not None and k.get('int') == 0 for k in ks):
+                        verdict, how = True, 'a comparison with 0'
+                    else:
+                        verdict, how = False, 'a comparison of two counts (line %s)' % b.term(sb).get('line')
+            if verdict is None:
+                res.ok(R, key, loc_of(b, sb), 'decided by a test that is neither an emptiness test nor a comparison of counts (not analysed further)')
+            elif verdict:
+                res.ok(R, key, loc_of(b, sb), 'None is answered on %s' % how)
+            else:
+                res.bad(R, key, loc_of(b, sb), 'whether anything is missing is decided by %s, not by an emptiness test: "as many" is not "the same" '
+                        '(two rules with one name and one name without a rule cancel out)' % how)
+    res.floor(R, 'missing-name results', n, 2)
+
+
 def run(facts, res):
+    r96(facts, res)
     r95(facts, res)
     ctx = r91(facts, res)
     r92(facts, res)
